@@ -7,10 +7,16 @@ buffered stream doubles (a user-supplied file object with its own buffer, with o
 `isatty()`), caller-opened real files on disk handed over as file objects (`open(p, "wb")` and
 `open(p, "w", encoding="utf-8", newline="")`; their content is always read back from the path through
 an independent handle, never through the object the writer holds), `ConsoleWriter`s over a replaced
-`sys.stdout`, and recording `BaseWriter`s.
+`sys.stdout`, and custom `BaseWriter`s of two sorts: one that copies what `write()` hands it at that
+moment, and one that *retains* the very objects it was handed (a queueing / batching writer; `write()`
+is typed `bytes`: what a writer received must read the same at any later moment) and is read again
+after every later operation and at the end.
 
 A case is a history of add_writer / remove_writer / write-producing builder calls / flush /
-teardown / owner-side `writer.disconnect()`.  The lines the builder formats are captured by a
+teardown (`teardown()`, `teardown(wait=False)`, `teardown(wait=True)`, and `with builder:` blocks left
+normally or through an exception, with operations of the history inside the block) / owner-side
+`writer.disconnect()`.  The property makes no exception for `wait=False` or for a block that raised:
+after any teardown a file output contains the lines written so far and every writer is disconnected.  The lines the builder formats are captured by a
 formatter subclass installed with the public `set_formatter` (-> the model's `write` operations,
 as code points, *before* they are encoded); the bytes are captured independently by a tap writer.
 The *statements* themselves are captured where they enter `write()` (a pass-through override in a
@@ -50,8 +56,10 @@ KINDS = {
     "ttytext": "t!",
     "console": "b!",  # ConsoleWriter() while sys.stdout has a .buffer
     "consoletext": "t!",  # ConsoleWriter() while sys.stdout has no .buffer
-    "rec": "c",  # recording BaseWriter
+    "rec": "c",  # recording BaseWriter (copies what it is handed)
+    "keep": "c",  # retaining BaseWriter (keeps the objects it is handed; they are read again later)
 }
+CUSTOM = ("rec", "keep")
 DISK = {"path", "filebin", "filetext"}  # observed by reading the path through an independent handle
 REALFILE = ("filebin", "filetext")  # caller-opened file objects over a real file
 USER_BUFFERED = ("bufbin", "buftext") + REALFILE  # user-supplied objects with their own buffer, no tty
@@ -153,6 +161,34 @@ def _writer_classes():
     return Rec
 
 
+def _retaining_class():
+    from gscrib.writers import BaseWriter
+
+    class Keep(BaseWriter):
+        """A writer that keeps the very objects `write()` hands it (to send them later, in a batch).
+        `seen`: their content at the moment of the call; `chunks`: the content of the kept objects *now*."""
+
+        def __init__(self):
+            self.kept, self.seen, self.discs, self.connects = [], [], 0, 0
+
+        def connect(self):
+            self.connects += 1
+            return self
+
+        def disconnect(self, wait=True):
+            self.discs += 1
+
+        def write(self, b):
+            self.kept.append(b)
+            self.seen.append(bytes(b))
+
+        @property
+        def chunks(self):
+            return [bytes(x) for x in self.kept]
+
+    return Keep
+
+
 class Slot:
     def __init__(self, idx, kind, tmp, tag):
         from gscrib.writers import ConsoleWriter, FileWriter
@@ -198,6 +234,9 @@ class Slot:
         elif kind == "rec":
             self.writer = _writer_classes()()
             self.handle = self.writer
+        elif kind == "keep":
+            self.writer = _retaining_class()()
+            self.handle = self.writer
         else:
             raise core.Infra(f"unknown writer kind {kind}")
 
@@ -221,22 +260,24 @@ class Slot:
             return self.handle.getvalue()
         if k == "rec":
             return b"".join(self.handle.chunks)
+        if k == "keep":
+            return b"".join(self.handle.seen)  # as delivered; the kept objects are read again in `record` / `check_mem`
         return self.handle.visible + self.handle.pending
 
     def visible(self):
         """What a reader of the output sees now."""
-        if self.kind in DISK or self.kind in ("bytesio", "stringio", "rec"):
+        if self.kind in DISK or self.kind in ("bytesio", "stringio") + CUSTOM:
             return self.given()
         return self.handle.visible
 
     def note(self):
         """remember the file object a path writer has open (to see later whether it was closed)"""
-        if self.kind != "rec" and self.writer._file is not None:
+        if self.kind not in CUSTOM and self.writer._file is not None:
             self.last_file = self.writer._file
 
     def record(self):
         w = self.writer
-        if self.kind == "rec":
+        if self.kind in CUSTOM:
             o, c, d, k = "0", "0", "0", str(w.discs)
             r = ".".join(x.hex() for x in w.chunks)
         else:
@@ -377,16 +418,47 @@ def gen_case(rng, maxlen=25):
         kinds[rng.randrange(n)] = "path"
     ops = []
     for _ in range(rng.randint(3, maxlen)):
-        k = rng.choice(["add", "add", "add", "remove", "emit", "emit", "emit", "emit", "flush", "flush", "teardown", "disc", "bump"])
+        k = rng.choice(["add", "add", "add", "remove", "emit", "emit", "emit", "emit", "flush", "flush", "teardown", "disc", "bump", "with"])
         if k in ("add", "remove", "disc"):
             if k == "disc" and rng.random() < 0.5:
                 continue
             ops.append([k, rng.randrange(n)])
         elif k == "emit":
             ops.append(gen_emit(rng))
+        elif k == "teardown":
+            ops.append(gen_teardown(rng))
+        elif k == "with":
+            ops.append(gen_with(rng, n))
         else:
             ops.append([k])
     return {"le": rng.choice(LINE_ENDINGS), "kinds": kinds, "ops": ops}
+
+
+def gen_teardown(rng):
+    """teardown(), teardown(wait=False), teardown(wait=True)"""
+    r = rng.random()
+    return ["teardown"] if r < 0.5 else ["teardown", False] if r < 0.9 else ["teardown", True]
+
+
+def gen_with(rng, n):
+    """`with builder:` around a few operations of the history (writers added / removed, statements, flush - the last
+    operation is more often a statement than not: lines still in a buffer when the block is left), left through an
+    exception raised in the block ("raise") or normally ("ok"); either way `__exit__` tears the builder down."""
+    body = []
+    for _ in range(rng.randint(0, 4)):
+        k = rng.choice(["add", "add", "remove", "emit", "emit", "emit", "flush"])
+        body.append([k, rng.randrange(n)] if k in ("add", "remove") else gen_emit(rng) if k == "emit" else [k])
+    if body and rng.random() < 0.5:
+        body.append(gen_emit(rng))
+    return ["with", body, "raise" if rng.random() < 0.65 else "ok"]
+
+
+def flat_ops(ops):
+    """the operations of a history, those inside `with` blocks included (for the distribution report)"""
+    for op in ops:
+        yield op
+        if op[0] == "with":
+            yield from flat_ops(op[1])
 
 
 # ------------------------------------------------------------------ one history on the implementation
@@ -437,7 +509,7 @@ def run_history(case, tmp, tag="h", observe_every=True):
     n = len(kinds)
     tap_id = n
     slots = [Slot(i, k, tmp, tag) for i, k in enumerate(kinds)]
-    tap = _writer_classes()()
+    tap = _retaining_class()()  # judged by its copies (`seen`); the objects it was handed are read once more at the end
     g = SpyBuilder(output=None, print_lines=False, line_endings=case["le"])
     fmt = HookFormatter()
     fmt.seen = []
@@ -474,7 +546,7 @@ def run_history(case, tmp, tag="h", observe_every=True):
             s.note()
         # unbuffered outputs hold exactly what was delivered, at every moment, registered or not
         for s in slots:
-            if s.kind in ("bytesio", "stringio", "rec", "ttybin", "ttytext", "console", "consoletext"):
+            if s.kind in ("bytesio", "stringio", "rec", "keep", "ttybin", "ttytext", "console", "consoletext"):
                 got = as_bytes(s, s.visible())
                 if got != expected[s.idx]:
                     problem("delivery", step, f"writer {s.idx} ({s.kind}) holds {got!r}, lines written while registered are {expected[s.idx]!r}")
@@ -490,25 +562,40 @@ def run_history(case, tmp, tag="h", observe_every=True):
                     problem("delivery", step, f"the file of writer {s.idx} ({s.kind}), read back from disk, holds {got!r}: not a beginning of the lines written while registered {expected[s.idx]!r}")
             if s.kind == "rec" and s.handle.chunks != exp_chunks[s.idx]:
                 problem("same-bytes", step, f"recorder {s.idx} received {s.handle.chunks!r}, expected the byte strings {exp_chunks[s.idx]!r}")
+            if s.kind == "keep":
+                check_kept(step, f"writer {s.idx} (keep)", s.handle, exp_chunks[s.idx])
 
-    def check_flushed(step, ids, why):
+    def check_kept(step, who, w, due):
+        """a writer that keeps the objects write() handed it: they were the due byte strings when they arrived, and they still are"""
+        if w.seen != due:
+            problem("same-bytes", step, f"{who} was handed {w.seen!r}, expected the byte strings {due!r}")
+        now = w.chunks
+        if now != w.seen:
+            j = next((j for j, (a, b) in enumerate(zip(now, w.seen)) if a != b), min(len(now), len(w.seen)))
+            problem("same-bytes", step, f"{who} kept the objects write() handed it: delivery {j} read {w.seen[j]!r} when it arrived and reads "
+                                        f"{now[j]!r} now ({type(w.kept[j]).__name__}); all kept objects now read {now!r}, the lines delivered were {w.seen!r}")
+
+    def check_flushed(step, ids, why, how=None):
+        """`why`: flush / teardown; `how`: the way the teardown came about, if not a plain teardown()"""
         for i in ids:
             s = slots[i]
             got = as_bytes(s, s.visible())
             if s.kind in USER_BUFFERED and why == "teardown":
                 out.notes.append(f"content-after-teardown:{s.kind}" + (":some" if expected[i] else ":empty"))
+            if s.kind in USER_BUFFERED + ("path",) and how:
+                out.notes.append(f"content-after-{how}:{s.kind}" + (":some" if expected[i] else ":empty"))
             if s.kind in USER_BUFFERED and why == "flush" and s.writer._file is None:
                 out.notes.append(f"content-after-flush-while-detached:{s.kind}" + (":some" if expected[i] else ":empty"))
             if s.kind in USER_BUFFERED:
                 out.notes.append(f"content-after-flush:{s.kind}" + (":some" if expected[i] else ":empty"))
             if got != expected[i]:
-                problem("file-content", step, f"after {why}() output {i} ({s.kind}) contains {got!r}, the lines written so far are {expected[i]!r}")
+                problem("file-content", step, f"after {how or why + '()'} output {i} ({s.kind}) contains {got!r}, the lines written so far are {expected[i]!r}")
 
     def record(op, step, model_index):
         rec = {"reg": impl_reg()}
         for s in slots:
             rec[s.idx] = s.record()
-        rec[tap_id] = {"o": "0", "d": "0", "c": "0", "k": str(tap.discs), "B": b"".join(tap.chunks).hex(), "T": "", "R": ".".join(x.hex() for x in tap.chunks)}
+        rec[tap_id] = {"o": "0", "d": "0", "c": "0", "k": str(tap.discs), "B": b"".join(tap.seen).hex(), "T": "", "R": ".".join(x.hex() for x in tap.chunks)}
         out.marks.append((model_index, rec, op))
         return rec
 
@@ -522,119 +609,161 @@ def run_history(case, tmp, tag="h", observe_every=True):
             registered.append(tap_id)
         return tok(f"a{tap_id}")
 
+    class Abort(Exception):
+        """raised inside a `with builder:` block by the caller's own code"""
+
+    def torn_down(op, step, was, how=None):
+        """the books and the property's clauses after a teardown, however it came about (`how`: None = a plain teardown())"""
+        nonlocal mi
+        what = how or "teardown()"
+        mi = tok("t")
+        for i in was:
+            exp_discs[i] += 1
+            if slots[i].kind == "path":
+                closed_path.add(i)
+        registered.clear()
+        left = impl_reg()
+        if left:
+            problem("teardown", step, f"writers {left} are still registered after {what}")
+        for i in was:
+            s = slots[i]
+            if s.kind not in CUSTOM and s.writer._file is not None:
+                problem("teardown", step, f"writer {i} ({s.kind}) is still connected after {what}")
+            if s.kind in CUSTOM and s.handle.discs != exp_discs[i]:
+                problem("teardown", step, f"custom writer {i} was disconnected {s.handle.discs} times by the end of {what}, expected {exp_discs[i]}")
+            if s.kind not in ("path",) + CUSTOM and s.handle.closed:
+                problem("teardown", step, f"{what} closed the user-supplied stream of writer {i}")
+        check_flushed(step, was, "teardown", how)
+        record(op, step, mi)
+        mi = add_tap()  # the tap goes back in (not part of the history proper)
+        check_mem(step)
+
+    def play(op, step, last):
+        """one operation of the history (`step`: its index, `i.j` inside a with-block; `last`: the history ends here)"""
+        nonlocal mi
+        kind = op[0]
+        out.kinds_used.add(kind)
+        if kind == "add":
+            g.add_writer(slots[op[1]].writer)
+            if op[1] not in registered:
+                registered.append(op[1])
+            mi = tok(f"a{op[1]}")
+        elif kind == "remove":
+            g.remove_writer(slots[op[1]].writer)
+            if op[1] in registered:
+                registered.remove(op[1])
+            mi = tok(f"r{op[1]}")
+        elif kind == "bump":  # move the tap to the end of the list
+            g.remove_writer(tap)
+            g.add_writer(tap)
+            registered.remove(tap_id)
+            registered.append(tap_id)
+            tok(f"r{tap_id}")
+            mi = tok(f"a{tap_id}")
+        elif kind == "disc":
+            slots[op[1]].writer.disconnect()
+            exp_discs[op[1]] += 1
+            if slots[op[1]].kind == "path":
+                closed_path.add(op[1])
+            mi = tok(f"d{op[1]}")
+        elif kind == "emit":
+            n_seen, n_tap, n_stmt = len(fmt.seen), len(tap.seen), len(statements)
+            try:
+                do_emit(g, op[1], op[2])
+            except core.Infra:
+                raise
+            except Exception as e:  # rejected call / unencodable line
+                out.errors.append(type(e).__name__)
+            lines = fmt.seen[n_seen:]
+            chunks = tap.seen[n_tap:]
+            for ln in lines:
+                mi = tok("w" + ",".join(format(ord(ch), "x") for ch in ln))
+            # "the same UTF-8 bytes": what the tap received is the encoding of the formatted lines
+            want = []
+            for ln in lines:
+                try:
+                    want.append(ln.encode("utf-8"))
+                except UnicodeEncodeError:
+                    pass
+            if chunks != want:
+                problem("same-bytes", step, f"writers received {chunks!r} for the lines {lines!r} (UTF-8: {want!r})")
+            # "each statement is delivered exactly once": one delivery per statement that entered write(), and it is
+            # that statement's own line (computed here, not by the library): its text + one line ending, UTF-8
+            stmts = statements[n_stmt:]
+            due = [b for b in (statement_bytes(st, case["le"]) for st in stmts) if b is not None]
+            out.statements += len(stmts)
+            if len(chunks) != len(due):
+                problem("exactly-once", step, f"the {len(stmts)} statement(s) {stmts!r} reached the writers as {len(chunks)} deliveries {chunks!r}; "
+                                              f"due: {len(due)} ({due!r})")
+            elif chunks != due:
+                problem("same-bytes", step, f"the statement(s) {stmts!r} were delivered as {chunks!r}, their lines in UTF-8 are {due!r}")
+            for b in due:  # the books are kept from what is due, not from what arrived
+                tap_due.append(b)
+                for i in registered:
+                    if i == tap_id:
+                        continue
+                    if i in closed_path and slots[i].kind == "path":
+                        expected[i] = b""
+                        closed_path.discard(i)
+                    expected[i] += b
+                    exp_chunks[i].append(b)
+                    out.lines_to_real += 1
+        elif kind == "flush":
+            g.flush()
+            mi = tok("f")
+            check_flushed(step, [i for i in registered if i != tap_id], "flush")
+        elif kind == "teardown":
+            was = [i for i in registered if i != tap_id]
+            if len(op) == 1:
+                g.teardown()
+                torn_down(op, step, was)
+            else:
+                g.teardown(wait=op[1])
+                torn_down(op, step, was, f"teardown(wait={op[1]})")
+            return
+        elif kind == "with":
+            # the caller's own `with builder:` block around some operations; left normally or through an exception
+            # raised by the caller's code - `__exit__` tears the builder down either way
+            try:
+                with g as entered:
+                    if entered is not g:
+                        problem("teardown", step, f"`with builder as b`: b is {entered!r}, not the builder")
+                    for j, sub in enumerate(op[1]):
+                        play(sub, f"{step}.{j}", False)
+                    if op[2] == "raise":
+                        raise Abort()
+            except Abort:
+                if op[2] != "raise":
+                    raise
+            else:
+                if op[2] == "raise":
+                    problem("teardown", step, "the exception raised inside the with-block did not leave it")
+            was = [i for i in registered if i != tap_id]
+            torn_down(op, step, was, "a with-block left through an exception" if op[2] == "raise" else "a with-block left normally")
+            return
+        else:
+            raise core.Infra(f"unknown op {op}")
+        # common per-step checks (in the exhaustive sub-run every prefix is a case of its own: judged at its end)
+        if not observe_every and not last:
+            check_mem(step)
+            return
+        got_reg = impl_reg()
+        if len(set(got_reg)) != len(got_reg):
+            problem("no-duplicates", step, f"the writer list holds a writer twice: {got_reg}")
+        elif got_reg != registered:
+            problem("registration", step, f"registered writers are {got_reg}, expected {registered}")
+        for s in slots:
+            if s.kind in CUSTOM and s.handle.discs != exp_discs[s.idx]:
+                problem("teardown", step, f"custom writer {s.idx} was disconnected {s.handle.discs} times, expected {exp_discs[s.idx]}")
+        check_mem(step)
+        if observe_every or last:
+            record(op, step, mi)
+
+    tap_due = []  # the byte strings due to the tap (registered throughout)
     mi = add_tap()
     try:
         for step, op in enumerate(case["ops"]):
-            kind = op[0]
-            out.kinds_used.add(kind)
-            if kind == "add":
-                g.add_writer(slots[op[1]].writer)
-                if op[1] not in registered:
-                    registered.append(op[1])
-                mi = tok(f"a{op[1]}")
-            elif kind == "remove":
-                g.remove_writer(slots[op[1]].writer)
-                if op[1] in registered:
-                    registered.remove(op[1])
-                mi = tok(f"r{op[1]}")
-            elif kind == "bump":  # move the tap to the end of the list
-                g.remove_writer(tap)
-                g.add_writer(tap)
-                registered.remove(tap_id)
-                registered.append(tap_id)
-                tok(f"r{tap_id}")
-                mi = tok(f"a{tap_id}")
-            elif kind == "disc":
-                slots[op[1]].writer.disconnect()
-                exp_discs[op[1]] += 1
-                if slots[op[1]].kind == "path":
-                    closed_path.add(op[1])
-                mi = tok(f"d{op[1]}")
-            elif kind == "emit":
-                n_seen, n_tap, n_stmt = len(fmt.seen), len(tap.chunks), len(statements)
-                try:
-                    do_emit(g, op[1], op[2])
-                except core.Infra:
-                    raise
-                except Exception as e:  # rejected call / unencodable line
-                    out.errors.append(type(e).__name__)
-                lines = fmt.seen[n_seen:]
-                chunks = tap.chunks[n_tap:]
-                for ln in lines:
-                    mi = tok("w" + ",".join(format(ord(ch), "x") for ch in ln))
-                # "the same UTF-8 bytes": what the tap received is the encoding of the formatted lines
-                want = []
-                for ln in lines:
-                    try:
-                        want.append(ln.encode("utf-8"))
-                    except UnicodeEncodeError:
-                        pass
-                if chunks != want:
-                    problem("same-bytes", step, f"writers received {chunks!r} for the lines {lines!r} (UTF-8: {want!r})")
-                # "each statement is delivered exactly once": one delivery per statement that entered write(), and it is
-                # that statement's own line (computed here, not by the library): its text + one line ending, UTF-8
-                stmts = statements[n_stmt:]
-                due = [b for b in (statement_bytes(st, case["le"]) for st in stmts) if b is not None]
-                out.statements += len(stmts)
-                if len(chunks) != len(due):
-                    problem("exactly-once", step, f"the {len(stmts)} statement(s) {stmts!r} reached the writers as {len(chunks)} deliveries {chunks!r}; "
-                                                  f"due: {len(due)} ({due!r})")
-                elif chunks != due:
-                    problem("same-bytes", step, f"the statement(s) {stmts!r} were delivered as {chunks!r}, their lines in UTF-8 are {due!r}")
-                for b in due:  # the books are kept from what is due, not from what arrived
-                    for i in registered:
-                        if i == tap_id:
-                            continue
-                        if i in closed_path and slots[i].kind == "path":
-                            expected[i] = b""
-                            closed_path.discard(i)
-                        expected[i] += b
-                        exp_chunks[i].append(b)
-                        out.lines_to_real += 1
-            elif kind == "flush":
-                g.flush()
-                mi = tok("f")
-                check_flushed(step, [i for i in registered if i != tap_id], "flush")
-            elif kind == "teardown":
-                was = [i for i in registered if i != tap_id]
-                g.teardown()
-                mi = tok("t")
-                for i in was:
-                    exp_discs[i] += 1
-                    if slots[i].kind == "path":
-                        closed_path.add(i)
-                registered.clear()
-                left = impl_reg()
-                if left:
-                    problem("teardown", step, f"writers {left} are still registered after teardown()")
-                for i in was:
-                    s = slots[i]
-                    if s.kind != "rec" and s.writer._file is not None:
-                        problem("teardown", step, f"writer {i} ({s.kind}) is still connected after teardown()")
-                    if s.kind not in ("path", "rec") and s.handle.closed:
-                        problem("teardown", step, f"teardown() closed the user-supplied stream of writer {i}")
-                check_flushed(step, was, "teardown")
-                record(op, step, mi)
-                mi = add_tap()  # the tap goes back in (not part of the history proper)
-                check_mem(step)
-                continue
-            else:
-                raise core.Infra(f"unknown op {op}")
-            # common per-step checks (in the exhaustive sub-run every prefix is a case of its own: judged at its end)
-            if not observe_every and step != len(case["ops"]) - 1:
-                check_mem(step)
-                continue
-            got_reg = impl_reg()
-            if len(set(got_reg)) != len(got_reg):
-                problem("no-duplicates", step, f"the writer list holds a writer twice: {got_reg}")
-            elif got_reg != registered:
-                problem("registration", step, f"registered writers are {got_reg}, expected {registered}")
-            for s in slots:
-                if s.kind == "rec" and s.handle.discs != exp_discs[s.idx]:
-                    problem("teardown", step, f"recorder {s.idx} was disconnected {s.handle.discs} times, expected {exp_discs[s.idx]}")
-            check_mem(step)
-            if observe_every or step == len(case["ops"]) - 1:
-                record(op, step, mi)
+            play(op, step, step == len(case["ops"]) - 1)
         # ---- end of the history: teardown, then the owner closes what it owns
         final_step = len(case["ops"])
         was = [i for i in registered if i != tap_id]
@@ -645,12 +774,12 @@ def run_history(case, tmp, tag="h", observe_every=True):
             problem("teardown", final_step, f"writers {impl_reg()} are still registered after the final teardown()")
         record(["teardown"], final_step, mi)
         for s in slots:  # the owner disconnects the writers it still holds, then closes its own streams
-            if s.kind != "rec":
+            if s.kind not in CUSTOM:
                 s.writer.disconnect()
                 mi = tok(f"d{s.idx}")
         record(["owner-disconnect"], final_step + 1, mi)
         for s in slots:
-            if s.kind not in ("path", "rec", "bytesio", "stringio"):
+            if s.kind not in ("path", "bytesio", "stringio") + CUSTOM:
                 s.handle.close()
         for s in slots:
             if s.kind in REALFILE:
@@ -658,10 +787,15 @@ def run_history(case, tmp, tag="h", observe_every=True):
             got = as_bytes(s, s.visible())
             if got != expected[s.idx]:
                 problem("file-content", final_step + 1, f"after closing, output {s.idx} ({s.kind}) contains {got!r}, its session's lines are {expected[s.idx]!r}")
+        # a writer that only now looks at what it was handed (a batch sent at the end): every kept object still reads as delivered
+        for s in slots:
+            if s.kind == "keep":
+                check_kept(final_step + 1, f"writer {s.idx} (keep)", s.handle, exp_chunks[s.idx])
+        check_kept(final_step + 1, "the always-registered custom writer", tap, tap_due)
     finally:
         for s in slots:
             try:
-                if s.kind != "rec":
+                if s.kind not in CUSTOM:
                     s.writer.disconnect()
             except Exception:
                 pass
@@ -729,9 +863,10 @@ def judge(R, case, out, model_text, label, last_only=False):
     R.count(label, "le:" + repr(case["le"]), f"len:{min(len(case['ops']) // 5 * 5, 25)}+")
     for k in case["kinds"]:
         R.count("kind:" + k)
-    for op in case["ops"]:
-        R.count("op:" + op[0] + (":" + op[1] if op[0] == "emit" else ""))
-    for op in case["ops"]:  # the distribution of the odd texts (a generator that stopped producing them is visible)
+    for op in flat_ops(case["ops"]):
+        R.count("op:" + op[0] + (":" + op[1] if op[0] == "emit" else f"(wait={op[1]})" if op[0] == "teardown" and len(op) > 1 else
+                                 f":{op[2]}:{min(len(op[1]), 3)}{'+' if len(op[1]) >= 3 else ''}-ops-inside" if op[0] == "with" else ""))
+    for op in flat_ops(case["ops"]):  # the distribution of the odd texts (a generator that stopped producing them is visible)
         if op[0] == "emit" and isinstance(op[2], (str, list)):
             text = op[2] if isinstance(op[2], str) else " ".join(str(a) for a in op[2])
             if not text.strip():
@@ -790,8 +925,10 @@ def run_batch(R, cases, tmp, label, last_only=False, procs=1):
 def exhaustive_realfile_cases(maxlen):
     """All histories <= maxlen over two caller-opened real files handed over as file objects (0: text mode,
     1: binary mode; the tap is a third writer) and add 0 / add 1 / remove 0 / owner disconnect 0 / one
-    write-producing call / flush / teardown."""
-    alphabet = [["add", 0], ["add", 1], ["remove", 0], ["disc", 0], ["emit", "comment", "é✓"], ["flush"], ["teardown"]]
+    write-producing call / flush / teardown() / teardown(wait=False) / a with-block holding one write-producing call
+    that is left through an exception."""
+    alphabet = [["add", 0], ["add", 1], ["remove", 0], ["disc", 0], ["emit", "comment", "é✓"], ["flush"], ["teardown"],
+                ["teardown", False], ["with", [["emit", "comment", "é✓"]], "raise"]]
     for L in range(maxlen + 1):
         for combo in itertools.product(alphabet, repeat=L):
             yield {"le": "\\r\\n", "kinds": ["filetext", "filebin"], "ops": list(combo)}
@@ -820,19 +957,30 @@ CORPUS = [
     # separator statement, a raw statement with a form feed / a bare LF inside; to a recorder, a path file and text streams
     {"le": "\\r\\n", "kinds": ["rec", "path", "bytesio"], "ops": [["add", 0], ["add", 1], ["add", 2], ["emit", "comment", "section 1"], ["emit", "comment", "côté A\u2028G28 après"], ["emit", "raw", ""], ["emit", "move", 3], ["flush"], ["emit", "movec", "fin\u2029✓"], ["teardown"]]},
     {"le": "\\n", "kinds": ["stringio", "filetext", "ttytext"], "ops": [["add", 0], ["add", 1], ["add", 2], ["emit", "raw", "G1 X1\x0cG1 X2"], ["emit", "raw", "   "], ["emit", "raw", "M117 a\x85b\x1ec"], ["emit", "raw", "G0 X1\nG0 X2"], ["emit", "comment", ""], ["flush"], ["emit", "raw", "\t"], ["flush"]]},
+    # a custom writer that keeps the objects it is handed next to a stream: each must still read as its own line after later
+    # statements, a flush, a teardown and a second session (bytes are immutable; a queueing writer relies on it)
+    {"le": "\n", "kinds": ["keep", "bytesio"], "ops": [["add", 0], ["add", 1], ["emit", "comment", "pièce nº 1"], ["emit", "dist", "absolute"], ["emit", "move", 1], ["flush"], ["emit", "raw", "M400"], ["teardown"], ["add", 0], ["emit", "comment", "✓"], ["emit", "rapid", 5]]},
+    # tearing down without waiting, and with-blocks left through an exception / normally: the caller's buffered files (a stream
+    # double, text- and binary-mode real files read back from disk) hold every line written so far, the path file is closed
+    {"le": "\r\n", "kinds": ["filetext", "bufbin", "path", "keep"], "ops": [["add", 0], ["add", 1], ["add", 2], ["add", 3], ["emit", "comment", "fin de tâche"], ["emit", "move", 3], ["teardown", False], ["add", 0], ["add", 1], ["emit", "tool_off", None], ["teardown", True]]},
+    {"le": "\n", "kinds": ["filebin", "buftext", "path"], "ops": [["add", 0], ["with", [["add", 1], ["add", 2], ["emit", "comment", "début"], ["emit", "move", 1], ["emit", "rapid", 5]], "raise"], ["with", [["add", 0], ["add", 1], ["emit", "comment", "reprise ✓"], ["flush"], ["emit", "move", 2]], "ok"], ["add", 1], ["emit", "raw", "M2"], ["with", [], "raise"]]},
     {"le": "\n", "kinds": ["bytesio", "buftext"], "ops": [["add", 0], ["add", 1], ["emit", "comment", "bad \ud800 surrogate"], ["emit", "nan", None], ["bump"], ["emit", "dist", "relative"], ["remove", 0], ["emit", "tool_off", None], ["flush"]]},
 ]
 
 
 def run(R: core.Run):
     R.rule = ("histories of add_writer/remove_writer/write-producing builder calls/flush/teardown/owner disconnect over 1-4 "
-              "writers of 12 kinds (incl. caller-opened text- and binary-mode real files read back from disk) and 6 line-ending settings, statement texts incl. empty / blank-only ones and ones with boundary-like characters (U+2028/2029/0085, VT, FF, FS-RS, CR, LF) inside raw text and comments; non-trivial = at least one line delivered to a non-tap writer "
+              "writers of 13 kinds (incl. caller-opened text- and binary-mode real files read back from disk, and custom writers that copy / that "
+              "retain the objects write() hands them, re-read after every later operation and at the end) and 6 line-ending settings; teardown as "
+              "teardown() / teardown(wait=False) / teardown(wait=True) / a `with builder:` block around 0-5 operations left through an exception or normally; statement texts incl. empty / blank-only ones and ones with boundary-like characters (U+2028/2029/0085, VT, FF, FS-RS, CR, LF) inside raw text and comments; non-trivial = at least one line delivered to a non-tap writer "
               "and >= 3 operation kinds; distinct by hash")
     R.assumptions = [
         "OS / io.Buffered* buffering is not modelled beyond the `dirty` flag: disk content is compared exactly when the model says "
         "nothing is unflushed, as a prefix otherwise",
         "FileWriter.flush() calls flush() on whatever file object it is connected to, its own or the caller's, and disconnect() "
-        "(hence teardown() and remove-by-owner) flushes a caller's object before detaching it: for the stream doubles and for "
+        "(hence teardown() with any `wait`, the end of a `with builder:` block however it is left, and remove-by-owner) flushes a caller's "
+        "object before detaching it - the model's teardown has no `wait` parameter and FileWriter.disconnect ignores it, all are the one "
+        "operation `teardown` for the model: for the stream doubles and for "
         "caller-opened real files (open(p, 'wb'), open(p, 'w', encoding='utf-8', newline='')) the content after flush() and after "
         "teardown() is what an independent reader sees (the double's visible part / the path read through a new handle), compared exactly",
         "text streams are UTF-8 / str-based (StringIO, stream doubles); a text stream with another encoding is out of scope",
@@ -863,7 +1011,8 @@ def run(R: core.Run):
         R.extra["exhaustive_subrun_realfiles"] = {
             "cases": len(exr), "exhaustive": True,
             "scope": f"all histories of length <= {depth} over a caller-opened text-mode and a binary-mode real file: add of each, remove / "
-                     "owner disconnect of the text one, one write-producing call (non-ASCII comment, CRLF), flush, teardown; final state "
+                     "owner disconnect of the text one, one write-producing call (non-ASCII comment, CRLF), flush, teardown(), teardown(wait=False), "
+                     "a with-block holding one write-producing call and left through an exception; final state "
                      "compared, content read back from disk (every prefix is itself a case)"}
         if R.broken:
             R.search_batches += 1
